@@ -15,7 +15,7 @@ func init() {
 	fw.Register(&fw.Check{
 		ID:    "C01",
 		Level: "translation_validation",
-		Rule: "programs = LLVM-accepted module texts from the atom catalogue (every instruction, terminator, constant, type, linkage/attribute and metadata form), /repo testdata, llvm-stress, the clang corpus, generated modules, opt-transformed variants and LLVM-validated respellings. Each is parsed and printed by llir/llvm; LLVM 14 reads both the input and the printed output (llvm-as, verifier on, llvm-dis) and the two readings are compared in canonical form (metadata renumbered by first visit, named metadata/types/comdats sorted). A program counts when LLVM accepted the input; unrepresentable-construct atoms must yield an error (no panic, no silent acceptance). " +
+		Rule: "programs = LLVM-accepted module texts from the atom catalogue (every instruction, terminator, constant, type, linkage/attribute and metadata form), /repo testdata, llvm-stress, the clang corpus, generated modules, opt-transformed variants and LLVM-validated respellings. Each is parsed and printed by llir/llvm; LLVM 14 reads both the input and the printed output (llvm-as, verifier on, llvm-dis) and the two readings are compared in canonical form (metadata renumbered by first visit, named metadata/types/comdats sorted). Inputs LLVM's assembler accepts but cannot bring through bitcode (no canonical form) are still held to the validity gate: the parser must accept them and llvm-as must accept the printed output. A program counts when LLVM accepted the input; unrepresentable-construct atoms must yield an error (no panic, no silent acceptance). " +
 			"non-trivial = an LLVM-accepted input with at least one global or function; distinct by canonical form of the input",
 		Gen:           genC01,
 		MinNontrivial: 80,
